@@ -89,6 +89,19 @@ func (p *C14) Prepare(env *Env, tier string, seed uint64) error {
 			p.nExh++
 		}
 	}
+	// long runs of one conversion from every key (ring wrap-around far beyond one lap)
+	runLens := []int{13, 24, 25, 37}
+	if tier == "thorough" {
+		runLens = []int{13, 14, 17, 23, 24, 25, 26, 36, 37, 48, 49, 61}
+	}
+	for _, k := range model.SupportedKeys {
+		for _, n := range runLens {
+			for _, op := range []string{"d", "s"} {
+				p.mk(seed, r, k, strings.Repeat(op, n), "long-run")
+				p.nRnd++
+			}
+		}
+	}
 	for i := 0; i < nRandom; i++ {
 		var ch string
 		switch r.Intn(4) {
@@ -96,6 +109,14 @@ func (p *C14) Prepare(env *Env, tier string, seed uint64) error {
 			ch = strings.Repeat("d", 12) // twelve dominants
 		case 1:
 			ch = strings.Repeat("s", 12)
+		case 2:
+			// a few long runs joined by mode switches
+			for len(ch) < 20+r.Intn(40) {
+				ch += strings.Repeat(string("ds"[r.Intn(2)]), 1+r.Intn(30))
+				if r.Chance(1, 2) {
+					ch += string("pr"[r.Intn(2)])
+				}
+			}
 		default:
 			ch = chain(r, 64)
 		}
